@@ -24,15 +24,17 @@ _WS = re.compile(r"\s+")
 
 ATOMS = {
     "tag": ["{% tag %}", "{% tag a=1 b=\"two words\" %}", "{% /tag %}", "{% field kind=\"string\" id=\"name\" label=\"Full Name\" %}",
-            "{% if a > b and c %}", "{% progress value=\"50%\" label=\"half way there\" %}", "{% if 5 % 2 == 1 and x %}"],
+            "{% if a > b and c %}", "{% progress value=\"50%\" label=\"half way there\" %}", "{% if 5 % 2 == 1 and x %}",
+            "{% field hint=(\"Be brief.\") required=true %}"],
     "var": ["{{ var }}", "{{ a.b | filter(\"x y\") }}", "{{a}}", "{{ {\"a\": 1, \"b\": 2} | tojson }}"],
     "jcomment": ["{# note #}", "{# a longer comment here #}", "{# see issue #12 and PR #13 here #}"],
     "comment": ["<!-- c -->", "<!-- a longer comment here -->", "<!-- /c -->"],
     "html": ["<span class=\"a b\">", "</span>", "<br/>", "<a href=\"http://x.y/z\" title=\"t t\">", "</a>"],
-    "code": ["`x`", "`a b`", "`foo(bar, baz)`", "`--flag value`", "`` a`b c ``", "`a b c d e f`"],
+    "code": ["`x`", "`a b`", "`foo(bar, baz)`", "`--flag value`", "`` a`b c ``", "`a b c d e f`", "`print(\"Done.\") and exit`"],
     "link": ["[link](http://ex.com/a)", "[two words](http://ex.com/a_b?q=1&r=2)", "[a b c d](http://u.v \"T t\")",
              "![alt text](img.png)", "[*em* link](http://x.y/z)", "<https://example.org/path>",
-             "[long link text that goes on and on](http://example.com/a/very/long/path/that/keeps/going)"],
+             "[long link text that goes on and on](http://example.com/a/very/long/path/that/keeps/going)",
+             "[the reply (\"Not now.\") was short](http://x.y)"],
     "paired": ["{% f %}{% /f %}", "<!-- f --><!-- /f -->", "{{ a }}{{ /a }}", "{# a #}{# /a #}", "{% f a=1 %} {% /f %}"],
 }
 SENTENCE_INSIDE = ["[with text inside. Another sentence](http://x.y)", "`end. Next`", "[dots. End](http://x.y/z)",
@@ -169,12 +171,31 @@ class C06(Prop):
             ii, si = r.choice(CONTAINERS)
             yield {"kind": "units", "units": units, "gaps": gaps, "ii": ii, "si": si, "meta": sorted(set(meta)),
                    "opts": [[r.randint(1, 12), r.random() < 0.5], [r.randint(8, 60), r.random() < 0.5], [r.randint(1, 40), r.random() < 0.5]]}
+        for i in range(20 if tier == "quick" else 200):
+            # a tag alone on the line after a hard line break, followed by more text
+            tag = r.choice(["{{signature}}", "{%endif%}", "{#todo#}", "<!--marker-->", "{{ signature }}", "{% endif %}"])
+            a = " ".join(plain_word(r, 8) for _ in range(r.randint(2, 6)))
+            b = " ".join(plain_word(r, 8) for _ in range(r.randint(2, 8)))
+            yield {"kind": "hbtag", "text": f"Start {a}{r.choice([chr(92), '  '])}\n{tag}\nThen {b}\n", "tag": tag,
+                   "opts": [[88, False], [88, True], [r.randint(10, 40), r.random() < 0.5]]}
         nd = 25 if tier == "quick" else 250
         for i in range(nd):
             yield {"kind": "tagdoc", "seed": r.getrandbits(40), "opts": [[88, False], [r.randint(10, 60), r.random() < 0.5], [0, True]]}
 
     def check(self, case, col: Collector):
         getattr(self, "_check_" + case["kind"])(case, col)
+
+    def _check_hbtag(self, case, col):
+        for (w, sem) in case["opts"]:
+            col.case()
+            col.mon("taglines")
+            out = fm.fmt(case["text"], width=w, semantic=sem)
+            if isinstance(out, fm.Raised):
+                col.count("raised_cases_left_to_C12")
+                continue
+            col.distinct("hbtag", case["text"], w, sem)
+            if case["tag"] not in out.split("\n"):
+                col.violation("taglines", "C06/tagline/not-alone-on-unindented-line/after-hard-break", dict(case, opts=[[w, sem]]), {"output": out[:300]})
 
     # ------------------------------------------------------------------ units
     def _check_units(self, case, col):
